@@ -235,7 +235,15 @@ struct RBDL_DLLAPI Body {
 #ifndef RBDL_USE_CASADI_MATH
     if (new_mass == 0.)
     {
-      throw Errors::RBDLError("Error: cannot separate bodies as both have zero mass!\n");
+      // The remainder is massless (e.g. the other body had been joined to a
+      // massless body): its center of mass is arbitrary and its inertia is
+      // what is left about the origin.
+      Math::SpatialRigidBodyInertia rbi =
+          Math::SpatialRigidBodyInertia::createFromMassComInertiaC(mMass, mCenterOfMass, mInertia);
+      Math::Matrix3d inertia_rest = Math::Matrix3d(rbi.toMatrix().block<3, 3>(0, 0)) -
+                                    TransformInertiaToBodyFrame(transform, other_body);
+      *this = Body (0., Math::Vector3d (0., 0., 0.), inertia_rest);
+      return;
     }
 #endif
 
